@@ -30,9 +30,15 @@ class Run:
 
 def run_property(prop, tier, seed, root=None, write_evidence=True, quiet=False, selftest=True):
     r = Run(prop, tier, seed, root)
-    r.mod.run(r)
-    if tier == "thorough" and hasattr(r.mod, "run_thorough"):
-        r.mod.run_thorough(r)
+    try:
+        r.mod.run(r)
+        if tier == "thorough" and hasattr(r.mod, "run_thorough"):
+            r.mod.run_thorough(r)
+    except AnalysisBroken as e:
+        # a genuine violation found before the analyser lost its footing takes precedence
+        if not r.rep.failed():
+            raise
+        r.rep.notes.append(f"analysis stopped early: {e}")
     base_failed = bool(r.rep.failed())
     if tier == "thorough" and selftest and root is None:
         from . import selftest as st
